@@ -177,9 +177,9 @@ impl Hist {
                 _ => rnd::sqrt_price(&mut w.r),
             };
             let v2 = w.r.gen();
-            let adaptive = cfg.allow_adaptive && sp < 32768 && (cfg.all_adaptive || rnd::chance(&mut w.r, 1, 2));
+            let adaptive = cfg.allow_adaptive && (cfg.all_adaptive || rnd::chance(&mut w.r, 1, 2));
             let res = if adaptive {
-                let gs_opts: Vec<u16> = (1..=sp).filter(|g| sp % g == 0).collect();
+                let gs_opts: Vec<u16> = (1..=sp.min(4096)).filter(|g| sp % g == 0).collect();
                 let gs = *rnd::pick(&mut w.r, &gs_opts);
                 let max_acc = (*rnd::pick(&mut w.r, &[10_000u32, 50_000, 350_000, 1_000_000])).min(u32::MAX / gs as u32);
                 let consts = (
@@ -191,7 +191,9 @@ impl Hist {
                     gs,
                     *rnd::pick(&mut w.r, &[1u16, sp, (sp as u32 * 88).min(65535) as u16]),
                 );
-                let idx = 1024 + pi as u16 * 7 + sp % 5;
+                // the fee-tier index is a free label: also on the other side of 2^15 than the tick spacing
+                // (full-range-only is a matter of the spacing, never of the index)
+                let idx = if rnd::chance(&mut w.r, 1, 3) { 40_000 } else { 1024 } + pi as u16 * 7 + sp % 5;
                 let now = w.now() as u64;
                 let enable = match w.r.gen_range(0..6) {
                     0 => Some(now + *rnd::pick(&mut w.r, &[1u64, 60, 3600, 100_000])),
@@ -726,6 +728,7 @@ impl Hist {
         let v2 = w.r.gen();
         let ix = w.swap_ix(p, u, amount, threshold, limit, exact_in, a_to_b, v2);
         let ix = Self::maybe_supplemental(w, p, a_to_b, ix, acc);
+        let ix = Self::maybe_read_only_oracle(w, ix, acc);
         self.step(w, ix, monitors, acc);
     }
 
@@ -753,7 +756,35 @@ impl Hist {
             return ix;
         }
         acc.count("swaps_with_supplemental_arrays");
+        if rnd::chance(&mut w.r, 1, 5) {
+            // the arrays beyond the first are named only as supplemental accounts that are NOT writable (the caller
+            // chooses the flags of remaining accounts): the program may refuse, it must not walk over their ticks
+            let (a0, a1, a2) = (ix.key("tick_array_0"), ix.key("tick_array_1"), ix.key("tick_array_2"));
+            if a1 != a0 {
+                acc.count("swaps_with_read_only_supplemental_arrays");
+                let mut i = crate::monitors::c10::with_supplemental(&ix.with_key("tick_array_1", a0).with_key("tick_array_2", a0), &[a1, a2]);
+                let n = i.metas.len();
+                for m in i.metas[n - 2..].iter_mut() {
+                    m.writable = false;
+                }
+                return i;
+            }
+        }
         crate::monitors::c10::with_supplemental(&ix, &extra)
+    }
+
+    /// One v1 swap / two-hop in twelve names its oracle(s) read-only: identical on static pools, refused on
+    /// adaptive-fee pools (whose oracle has to be written).
+    pub fn maybe_read_only_oracle(w: &mut World, mut ix: Ix, acc: &mut Acc) -> Ix {
+        if (ix.name == "swap" || ix.name == "two_hop_swap") && rnd::chance(&mut w.r, 1, 12) {
+            for m in ix.metas.iter_mut() {
+                if m.name.starts_with("oracle") && m.writable {
+                    m.writable = false;
+                    acc.count("v1_swaps_with_adaptive_oracle_read_only");
+                }
+            }
+        }
+        ix
     }
 
     /// One actor, only swaps, 2..12 in a row, both directions and modes.
@@ -1427,6 +1458,7 @@ impl Hist {
         let threshold = if exact_in { 0 } else { u64::MAX };
         let v2 = w.r.gen();
         let ix = w.two_hop_ix(p1, p2, u, amount, threshold, exact_in, d1, d2, l1, l2, v2);
+        let ix = Self::maybe_read_only_oracle(w, ix, acc);
         self.step(w, ix, monitors, acc);
     }
 }
